@@ -8,13 +8,18 @@ MODULE = "Nice.Props.C01"
 THEOREMS = [f"Nice.Props.C01.{t}" for t in (
     "C01_role_stable_when_roles_differ", "C01_role_resolution", "C01_role_resolved_by_request",
     "C01_role_resolved_by_487", "C01_one_controller_after_resolution", "C01_mirror_priority",
-    "invE_step", "invD_step", "switched_stays")]
+    "invE_step", "invD_step", "switched_stays",
+    "C01_selected_is_max_nominated", "C01_selected_was_nominated", "C01_selection_order_independent", "C01_mirror_priority_gen")]
 TRUSTED = [
     "Lean 4 kernel; axioms propext, Classical.choice, Quot.sound only (audited every run)",
     "Nice/Model/IceRole.lean: hand-written kernels of the role-conflict decision (stun/usages/ice.c create_reply) and the 487 rule "
     "(conncheck.c), tied on every run by the role monitor: every STUN request a real agent receives in simulation is replayed "
     "through the Lean kernel and the predicted reply (success / 487) and role are compared with what the agent does next",
-    "the theorems cover role resolution only; READY on mirrored pairs for the whole check-list engine is NOT proved: it is "
+    "Nice/Gen/Select.lean is regenerated from the source: the replacement guard of conn_check_update_selected_pair and the "
+    "role-dependent argument order of agent_candidate_pair_priority; the selection theorems (selected = highest-priority "
+    "nominated pair, independent of processing order; mirror pairs get equal priorities) are about these definitions, and the "
+    "simulation compares every real agent's selected pair with the highest-priority nominated valid pair of its check list",
+    "the theorems cover role resolution and pair selection only; READY on mirrored pairs for the whole check-list engine is NOT proved: it is "
     "explored by simulating two real NiceAgents under a virtual clock and a virtual UDP network (interposed sendmsg/recvmsg/poll/"
     "clock_gettime; scripted interface list) with loss/duplication/delay/reordering that respects the property's loss hypothesis",
     "ICE-TCP and reliable transports are not part of this simulation (UDP host candidates only)",
@@ -59,6 +64,22 @@ def scenario(args):
             anytx = any(" tx A " in e and "class=0" in e for e in s.events()) and any(" tx B " in e and "class=0" in e for e in s.events())
             if anytx and ra + rb != 1:
                 (known if k1 else bad).append(("K1" if k1 else "roles", f"controlling flags at quiescence: A={ra} B={rb}"))
+        # selection kernel: the selected pair is the highest-priority nominated+valid pair of the agent's own check list
+        for ag in "AB":
+            ev_, stt = s.op(f"checklist {ag} 1")
+            best = {}
+            for w in stt.split()[2:]:
+                f = w.split(":")
+                # prio:state:nominated:valid:component:laddr:lport>raddr:rport:lprio:rprio
+                prio, nominated, valid, comp = int(f[0]), int(f[2]), int(f[3]), int(f[4])
+                pair = ":".join(f[5:-2])
+                if nominated and valid and (comp not in best or prio > best[comp][0]):
+                    best[comp] = (prio, pair)
+            for c, (qa, qb) in res2.items():
+                q = qa if ag == "A" else qb
+                if q["state"] == "READY" and c in best and best[c][1] != f"{q['local']}>{q['remote']}":
+                    bad.append(("selected-not-max-nominated", f"agent {ag} component {c}: selected {q['local']}>{q['remote']} but the "
+                                                               f"highest-priority nominated valid pair of its check list is {best[c][1]} (prio {best[c][0]})"))
         mon = role_monitor(s, cfg)
         return dict(seed=seed, cfg=cfg, bad=bad, known=known, stats=st, script=s.script, role_obs=mon,
                     nev=len(s.events()), ready=all(q[0]["state"] == "READY" and q[1]["state"] == "READY" for q in res2.values()))
